@@ -175,8 +175,54 @@ def _is(e: ast.AST, text: str) -> bool:
 class OrbitForm:
     """Recognises the accepted orbit-membership expressions."""
 
-    def __init__(self, selfn: str, othern: str):
+    def __init__(self, selfn: str, othern: str, group=None, inversion=None):
         self.s, self.o = selfn, othern
+        # literal tables of the class under analysis (for operands that are
+        # an explicit re-ordering of the atoms instead of _inverted_atoms())
+        self.group = {tuple(g) for g in group} if group else None
+        self.inversion = tuple(inversion) if inversion else None
+
+    def reorder_kind(self, e: ast.AST) -> str | None:
+        """e is a pure re-indexing of other.atoms / self.atoms (slices,
+        constant subscripts, star tuples): 'mem' when that permutation is a
+        rotation of the class, 'inv' when it lies in the coset of the class's
+        mirror operation, 'bad:..' otherwise; None when e is no such
+        expression."""
+        if self.group is None:
+            return None
+        from ..convtables import Fold, UNK
+        n = len(next(iter(self.group)))
+        names = {x.attr for x in ast.walk(e) if isinstance(x, ast.Attribute)}
+        roots = {norm(x) for x in ast.walk(e) if isinstance(x, ast.Attribute)
+                 and x.attr == "atoms"}
+        if len(roots) != 1 or names != {"atoms"}:
+            return None
+        root = roots.pop()
+        if any(isinstance(x, ast.Call) for x in ast.walk(e)
+               if not (isinstance(x, ast.Call) and call_name(x) in (
+                   "tuple", "list"))):
+            return None
+        sym = tuple(range(n))
+        v = Fold({root: sym}).ev(e)
+        if v is UNK or not isinstance(v, tuple) or sorted(
+                map(str, v)) != sorted(map(str, sym)):
+            return None
+        perm = tuple(v)
+        if perm == sym:
+            return None
+        if perm in self.group:
+            return "mem"
+        if self.inversion is None:
+            return None      # achiral class: no mirror operation to compare
+        if self.inversion is not None:
+            # perm = g o inversion for a rotation g  <=>  perm in coset
+            inv = self.inversion
+            coset = {tuple(inv[i] for i in g) for g in self.group} | {
+                tuple(g[i] for i in inv) for g in self.group}
+            if perm in coset:
+                return "inv"
+        return ("bad:re-ordering " + str(perm) + " of the atoms is neither a "
+                "rotation nor the mirror operation of the class")
 
     def classify(self, e: ast.AST) -> set[str] | None:
         """Set of term kinds in a disjunction, None if unrecognised.
@@ -221,6 +267,10 @@ class OrbitForm:
                     return {"mem"}
                 if (ta, tb) in ((oi, sp), (si, op_)):
                     return {"inv"}
+                if tb in (sp, op_):
+                    rk = self.reorder_kind(a)
+                    if rk is not None:
+                        return {rk}
                 return None
             return None
         if isinstance(e, ast.Call) and call_name(e) == "all" and len(
@@ -260,6 +310,12 @@ class OrbitForm:
                 return {"mem"}
             if (x, it) in ((oi, sp), (si, op_)):
                 return {"inv"}
+            if it in (sp, op_):
+                xe = _strip_wrappers(elt.comparators[0] if a == var
+                                     else elt.left)
+                rk = self.reorder_kind(xe)
+                if rk is not None:
+                    return {rk}
             return None
         return None
 
@@ -332,7 +388,12 @@ def check_eq(prog: Program, res: Result, fi, cls_name: str) -> None:
     if len(params) < 2:
         raise AnalysisError(f"{fi.qual}: unexpected signature")
     s, o = params[0], params[1]
-    form = OrbitForm(s, o)
+    try:
+        from ..convtables import Groups
+        G_ = Groups(prog)
+        form = OrbitForm(s, o, G_.G.get(cls_name), G_.inv.get(cls_name))
+    except Exception:
+        form = OrbitForm(s, o)
     for sp in PARITIES:
         for op in PARITIES:
             cell = f"{cls_name}.__eq__[{sp},{op}]"
